@@ -267,7 +267,8 @@ def fam_meta():
                     ([names] if n == 2 else []) + [['zz']] + \
                     ([['a'] + names] if pre else [])
                 full = [(None, 'm')] * pre + combo
-                for inner in (inners if not pre else inners[:1]):
+                for inner in (inners[:1] if pre else inners if n == 1
+                              else [inners[0], inners[3]]):
                     wraps = [{'pos': 0, 'fn': mk_fn(
                         1, WRAP_NAMES[0], inner[0])}] if inner else []
                     for sub in subsets:
@@ -343,6 +344,9 @@ def fam_big(ns):
 
 FAMILIES = {
     'sig<=2 full alphabets, every rates list':
+        lambda: [fam_sig(n, ('m', 's', 't1', 't2', 't3'), rates_all)
+                 for n in (0, 1, 2)],
+    'sig<=2 full alphabets + falsy defaults, every rates list':
         lambda: [fam_sig(n, ('m', 's', 'z', 'F', 't1', 't2', 't3'),
                          rates_all) for n in (0, 1, 2)],
     'sig3 reduced defaults, <=1 rates entry':
@@ -372,7 +376,7 @@ QUICK = [('sig<=2 full alphabets, every rates list', 64),
          ('wrap two sub-functions, sibling/nested', 16),
          ('variants', 16), ('metadata spec defaults', 64),
          ('call mapping', 8), ('parametric 16/17 parameters', 16)]
-THOROUGH = [('sig<=2 full alphabets, every rates list', 64),
+THOROUGH = [('sig<=2 full alphabets + falsy defaults, every rates list', 64),
             ('sig3 every rates list', 512),      # contains the quick sig3
             ('sig4 scalar/pair defaults, <=1 rates entry', 512),
             ('prepend 1-2 of <=4 parameters', 128),
